@@ -11,3 +11,56 @@ package stack
 //@ func (*Route).Clone props C05 C04
 //@   trusted
 //@   modifies structfamily(referencedNetworkEndpoint)
+
+// ---------------------------------------------------------------------------
+// ASSUMED interface of the stack core towards the protocol packages (C07 safety contracts of
+// the inbound handlers rely on these; the bodies are not verified). A route handed to a
+// protocol handler refers to a live NIC of an initialised stack; every statistics counter
+// is allocated (tcpip.Stats.FillIn does that by reflection in stack.New).
+
+//@ define statsOK(x) = x.UnknownProtocolRcvdPackets != nil && x.MalformedRcvdPackets != nil && x.DroppedPackets != nil && x.IP.PacketsReceived != nil && x.IP.InvalidAddressesReceived != nil && x.IP.PacketsDelivered != nil && x.IP.PacketsSent != nil && x.IP.OutgoingPacketErrors != nil && x.TCP.ActiveConnectionOpenings != nil && x.TCP.PassiveConnectionOpenings != nil && x.TCP.FailedConnectionAttempts != nil && x.TCP.ValidSegmentsReceived != nil && x.TCP.InvalidSegmentsReceived != nil && x.TCP.SegmentsSent != nil && x.TCP.ResetsSent != nil && x.TCP.ResetsReceived != nil && x.UDP.PacketsReceived != nil && x.UDP.UnknownPortErrors != nil && x.UDP.ReceiveBufferErrors != nil && x.UDP.MalformedPacketsReceived != nil && x.UDP.PacketsSent != nil
+
+//@ func (*Route).Stats props C07
+//@   trusted
+//@   ensures statsOK(result)
+
+//@ func (*Stack).Stats props C07
+//@   trusted
+//@   ensures statsOK(result)
+
+//@ func (*Stack).NowNanoseconds props C07
+//@   trusted
+
+//@ func (*Route).NICID props C07
+//@   trusted
+
+//@ func (*Route).MaxHeaderLength props C07
+//@   trusted
+
+//@ func (*Route).Capabilities props C07
+//@   trusted
+
+//@ func (*Route).DefaultTTL props C07
+//@   trusted
+
+//@ func (*Route).MTU props C07
+//@   trusted
+
+//@ func (*Route).IsResolutionRequired props C07
+//@   trusted
+
+//@ func (*Route).Release props C07
+//@   trusted
+//@   modifies everything
+
+//@ func (*Route).WritePacket props C07
+//@   trusted
+//@   modifies everything
+
+//@ func (*Route).Resolve props C07
+//@   trusted
+//@   modifies everything
+
+//@ func (*Route).RemoveWaker props C07
+//@   trusted
+//@   modifies everything
